@@ -29,9 +29,17 @@ cd /verif
 mkdir -p "$DST"
 cp "$SRC/patch.diff" "$SRC/demo_test.go" "$DST/"
 cp "$SRC/notes.txt" "$DST/notes.txt" 2>/dev/null
-# run the checks against /repo with the change applied
-if [ -n "$(git -C /repo status --porcelain)" ]; then echo "/repo is dirty; aborting"; exit 2; fi
-git -C /repo apply "$SRC/patch.diff" || { echo "cannot apply to /repo"; exit 2; }
+# run the checks against /repo with the change applied (SCRATCH=1: against a scratch worktree
+# instead, for use while a long run needs /repo unchanged)
+TARGET=/repo
+if [ "${SCRATCH:-0}" = "1" ]; then
+  TARGET=/tmp/wt_run_$$
+  git -C /repo worktree add -q "$TARGET" HEAD || exit 2
+  trap 'git -C /repo worktree remove --force '"$TARGET"' 2>/dev/null; cleanup' EXIT
+  export VERIF_REPO="$TARGET"
+fi
+if [ -n "$(git -C $TARGET status --porcelain)" ]; then echo "$TARGET is dirty; aborting"; exit 2; fi
+git -C $TARGET apply "$SRC/patch.diff" || { echo "cannot apply to $TARGET"; exit 2; }
 RESULTS=""
 for C in $ID "$@"; do
   timeout 2400 /verif/bin/check "$C" quick > "/tmp/seed_check_$C.log" 2>&1
@@ -42,8 +50,8 @@ for C in $ID "$@"; do
   cp "/tmp/seed_check_$C.log" "$DST/check_$C.log"
   tail -c 4000 "$DST/check_$C.log" > "$DST/check_$C.tail.log"; rm "$DST/check_$C.log"
 done
-git -C /repo checkout -- .
-git -C /repo status --porcelain
+git -C $TARGET checkout -- .
+git -C $TARGET status --porcelain
 # evidence files written during seeded runs are not evidence for the unchanged tree
 git -C /verif checkout -- evidence 2>/dev/null
 find /verif/replays -name '*.json' -delete 2>/dev/null
